@@ -80,7 +80,26 @@ def forbidden_tokens():
     return hits
 
 
-def lean_prepare(ctx, required, modules=None):
+def gen_closure(module):
+    """names X of the Gen modules QsmtpModel.Gen.X in the transitive import closure of `module`"""
+    seen, todo, gens = set(), [module], set()
+    while todo:
+        m = todo.pop()
+        if m in seen:
+            continue
+        seen.add(m)
+        p = os.path.join(LEAN, *m.split('.')) + '.lean'
+        if not os.path.exists(p):
+            continue
+        for imp in re.findall(r'^import\s+(\S+)', open(p).read(), re.M):
+            if imp.startswith('QsmtpModel.Gen.'):
+                gens.add(imp.split('.')[-1])
+            elif imp.startswith(('QsmtpModel.', 'Driver.')):
+                todo.append(imp)
+    return gens
+
+
+def lean_prepare(ctx, required, modules=None, extra_gens=None):
     """extract Gen, build theorems + driver, audit. Fills ctx.theorems / ctx.unshown."""
     prop = ctx.prop
     os.makedirs(os.path.join(LEAN, '.lake'), exist_ok=True)
@@ -89,9 +108,12 @@ def lean_prepare(ctx, required, modules=None):
     try:
         import extract, mkdriver
         mkdriver.run()
-        broken = extract.run(SRC, os.path.join(LEAN, 'QsmtpModel', 'Gen'))
-        for b in broken:
-            ctx.unshown.append('extract:' + b)
+        per = extract.run(SRC, os.path.join(LEAN, 'QsmtpModel', 'Gen'), detailed=True)
+        used = gen_closure('QsmtpModel.Props.' + prop) | set(extra_gens or ())
+        for f, msgs in per.items():
+            if f[:-5] in used:
+                for b in msgs:
+                    ctx.unshown.append('extract:%s: %s' % (f, b))
         r = sh(['lake', 'build', 'qsdrv'], cwd=LEAN)
         if r.returncode != 0:
             ctx.unshown.append('driver build failed (models do not compile against regenerated Gen)')
@@ -191,46 +213,46 @@ def build_harness(ctx, name, extra=(), libs=('-lssl', '-lcrypto'), sources=None,
 ENV = dict(os.environ, ASAN_OPTIONS='detect_leaks=0:abort_on_error=0:exitcode=99', UBSAN_OPTIONS='halt_on_error=1:exitcode=99')
 
 
+MAX_ABORTS = 25   # after that many crashed/hung requests in one chunk the rest is not run (SKIP)
+
+
 def _run_chunk(cmd, lines, timeout_per=20.0, env=None):
-    """feed lines, get one output per line; a crash yields FAULT for the line that crashed."""
+    """feed lines, get one output per line; a crash yields FAULT (a watchdog expiry HANG) for the
+    line that caused it, and the harness is restarted behind that line."""
     outs = []
     i = 0
+    aborts = 0
     while i < len(lines):
+        if aborts >= MAX_ABORTS:
+            outs.extend(['SKIP'] * (len(lines) - i))
+            break
         batch = lines[i:]
         try:
             p = subprocess.run(cmd, input='\n'.join(batch) + '\n', stdout=subprocess.PIPE, stderr=subprocess.PIPE,
-                               text=True, env=env or ENV, timeout=max(60, timeout_per + 0.01 * len(batch)))
-            got = p.stdout.split('\n')
-            if got and got[-1] == '':
-                got.pop()
-            err = p.stderr
+                               text=True, errors='replace', env=env or ENV, timeout=max(120, timeout_per + 0.02 * len(batch)))
+            stdout, err, rc = p.stdout, p.stderr, p.returncode
         except subprocess.TimeoutExpired as e:
-            got = (e.stdout or b'').decode(errors='replace').split('\n') if isinstance(e.stdout, bytes) else (e.stdout or '').split('\n')
-            if got and got[-1] == '':
-                got.pop()
-            got = got[:len(batch)]
-            if len(got) == len(batch):
-                got.pop()
-            # the line after the last complete answer hangs
-            outs.extend(got)
-            outs.append('HANG')
-            i += len(got) + 1
-            continue
-        if len(got) >= len(batch):
+            stdout = e.stdout.decode(errors='replace') if isinstance(e.stdout, bytes) else (e.stdout or '')
+            err, rc = '', 'timeout'
+        got = stdout.split('\n')
+        tail = got.pop() if got else ''
+        # a watchdog answer is "\nHANG\n": an empty or partial line before it belongs to the hung request
+        if got and got[-1] == 'HANG':
+            got.pop()
+            if got and len(got) > 0 and rc == 97:
+                got.pop()          # the (possibly empty) partial line of the hung request
+            kind = 'HANG'
+        else:
+            kind = 'FAULT'
+        if len(got) >= len(batch) and rc == 0:
             outs.extend(got[:len(batch)])
             break
-        # crashed on line index len(got) (a partial last line may be present: drop it if no newline)
-        if p.stdout and not p.stdout.endswith('\n') and got:
-            got.pop()
+        got = got[:len(batch) - 1] if len(got) >= len(batch) else got
         outs.extend(got)
-        kind = 'FAULT'
         m = re.search(r'ERROR: AddressSanitizer: (\S+)|runtime error: ([^\n]*)', err or '')
-        if m:
-            kind = 'FAULT'
-        elif p.returncode not in (99, -6, -11, 1):
-            kind = 'FAULT'
-        detail = (m.group(0)[:120] if m else 'exit %s' % p.returncode)
+        detail = (m.group(0)[:120] if m else 'exit %s' % rc)
         outs.append(kind + ' ' + detail.replace(' ', '_'))
+        aborts += 1
         i += len(got) + 1
     return outs
 
@@ -279,6 +301,9 @@ def differential(ctx, name, harness, cases, hline=None, mline=None, canon_h=None
     dis = []
     seen = set()
     for c, ho, mo in zip(cases, houts, mouts):
+        if ho == 'SKIP':
+            ctx.count('skipped-after-many-aborts')
+            continue
         ch, cm = canon_h(c, ho), canon_m(c, mo)
         if nontrivial is None or nontrivial(c, ch):
             seen.add(hashlib.sha1(c.encode()).digest()[:8])
@@ -293,7 +318,7 @@ def differential(ctx, name, harness, cases, hline=None, mline=None, canon_h=None
     # property predicate on the implementation's outputs (all cases)
     fails = []
     if pred and ctx.driver:
-        pl = [pred(c, canon_h(c, ho)) for c, ho in zip(cases, houts)]
+        pl = [None if ho == 'SKIP' else pred(c, canon_h(c, ho)) for c, ho in zip(cases, houts)]
         idx = [i for i, p in enumerate(pl) if p]
         pouts = run_batch(ctx.driver, [pl[i] for i in idx])
         for i, po in zip(idx, pouts):
